@@ -182,7 +182,7 @@ func checkTwins(r *ev.Run, id string) {
 	if id == "C11" {
 		r.Rule("case = (generated history, perturbation kind): twin node processes execute the same blocks; twin B additionally receives off-chain calls of ONE kind at PRNG-chosen positions between any two ABCI calls (before BeginBlock, between DeliverTx calls, before EndBlock, after Commit): CheckTx of valid / badly signed / unsigned transactions of several message types; /app/simulate of the same; ABCI store queries (key with and without proof, subspace) at latest and past heights; ABCI custom queries (application, applications, validator, validators); app.Query* RPC functions. Oracles: (1) raw digests of every persistent store are taken immediately before and after each off-chain call and must be equal; (2) per-tx results and app hashes of all later blocks equal the unperturbed twin's. Non-trivial = the perturbed twin executed >= 20 off-chain calls and both twins finished; distinct = (script digest, kind).")
 	} else {
-		r.Rule("case = (generated history with 7 applications whose stakes change constantly (the application LRU holds 5), jailing, unstaking, chain edits; perturbation kind): twin B additionally serves ONE kind of off-chain traffic between ABCI calls: ABCI custom queries at PAST heights (application / validator records), app.Query* at past heights, dispatch requests for live sessions, or a mix (plus CheckTx). Oracles: per-tx results and app hashes of every block equal the twin that never served anything (node-local caches must not leak into consensus); store digests unchanged across each call. Relay handling and restarts are exercised by C34/C35/C37. Non-trivial = >= 20 off-chain calls executed and both twins finished; distinct = (script digest, kind).")
+		r.Rule("case = (generated history with 7 applications whose stakes change constantly (the application LRU holds 5), jailing, unstaking, chain edits; perturbation kind): twin B additionally serves ONE kind of off-chain traffic between ABCI calls: ABCI custom queries at PAST heights (application / validator records), app.Query* at past heights, dispatch requests for live sessions, or a mix (plus CheckTx). Oracles: per-tx results and app hashes of every block equal the twin that never served anything (node-local caches must not leak into consensus); store digests unchanged across each call. A second family (kind dispatch-then-claims): claim/proof lifecycles with jailing and unstaking in mid-session on nodes whose session cache holds only 2..4 entries; twin B serves dispatches for every application x chain before and after every block, so that claim validation meets cached and spilled sessions where twin A computes them from state. Relay handling and restarts are exercised by C34/C35/C37. Non-trivial = >= 20 off-chain calls executed and both twins finished; distinct = (script digest, kind).")
 	}
 	r.Assume("off-chain calls are issued sequentially from the driver at the chosen positions (a live node would serve them from RPC goroutines; positions cover every gap between ABCI calls)")
 	type job struct {
@@ -207,6 +207,22 @@ func checkTwins(r *ev.Run, id string) {
 		for ki, k := range kinds {
 			sc, n := perturb(rng.New(r.Seed, id, si, "perturb", ki), base, c.B.Gen, k, 3)
 			jobs = append(jobs, &job{si: si, kind: k, sc: sc, nOps: n})
+		}
+	}
+	if id == "C13" {
+		// second family: claim / proof lifecycles (the C32 generator: jailing and unstaking in mid-session, claims of every
+		// class) on nodes whose session cache holds 2..4 entries; twin B serves dispatches for every application x chain
+		// around every block, so that claim validation finds cached (and spilled) sessions where twin A computes them
+		for ci := 0; ci < r.N(24, 300); ci++ {
+			if r.Only != "" && r.Only != "*" && r.Only != fmt.Sprint(claimsFam+ci) {
+				continue
+			}
+			cb := genClaimsCase(r.Seed, ci, "C32").Script
+			cb.PerTx, cb.Snapshot = false, "digest"
+			cb.Opts.MaxSessionCacheEntries = 2 + ci%3
+			jobs = append(jobs, &job{si: claimsFam + ci, kind: "", sc: cb})
+			ps, n := perturbDispatchAll(cb)
+			jobs = append(jobs, &job{si: claimsFam + ci, kind: "dispatch-then-claims", sc: ps, nOps: n})
 		}
 	}
 	var mu sync.Mutex
@@ -291,4 +307,35 @@ func indexOf(a []string, s string) int {
 		}
 	}
 	return 0
+}
+
+const claimsFam = 100000
+
+// perturbDispatchAll adds dispatch requests for every application x chain before BeginBlock and after Commit of every
+// block after the bootstrap.
+func perturbDispatchAll(sc chain.Script) (chain.Script, int) {
+	out := sc
+	out.Steps = make([]chain.Step, len(sc.Steps))
+	copy(out.Steps, sc.Steps)
+	n, h := 0, int64(0)
+	for i := range out.Steps {
+		st := &out.Steps[i]
+		if st.Op != "block" {
+			continue
+		}
+		h++
+		if h <= chain.BootstrapBlocks {
+			continue
+		}
+		st.Mid = nil
+		for _, pos := range []int{-1, len(st.Block.Txs) + 1} {
+			for a := 0; a < clApps; a++ {
+				for _, c := range []string{"0001", "0021"} {
+					st.Mid = append(st.Mid, chain.MidOp{Pos: pos, Kind: "dispatch", Arg: chain.PubHex(chain.KeyApp0 + a), Arg2: c})
+					n++
+				}
+			}
+		}
+	}
+	return out, n
 }
